@@ -135,7 +135,7 @@ func runC12(cfg *vh.Config) error {
 	res := vh.NewResult("C12", cfg.Seed)
 	res.Rule = "declarations: integer (4 formats; minimum/maximum absent, 0, format min/max, near them; exclusive flags absent/false/true), string (min/max length absent/0/1-6, pattern incl. patterns RE2 rejects), bytes, bool const, enum in/not-in (short and prefixed names), key (none/informal/custom incl. ill-formed patterns/uuid/id62, primary key), float and message-typed fields; each plain, required, optional, or as array (min/max items absent/0/1-6, unique absent/false/true, also on float and message items) or map; values: below/at/above every bound, multi-byte strings, (non-)matching patterns, undefined enum numbers, absent vs zero, +0/-0/NaN, lists with and without duplicates (messages with equal and different content); non-trivial = distinct declaration carrying at least one rule, required flag or format"
 	cf := &vh.CasesFile{
-		Header: "From Coq Require Import String List NArith ZArith.\nFrom J5V.lib Require Import Outcome.\nFrom J5V.model Require Import RulesDecl RulesCorr.",
+		Header: "From Coq Require Import String List NArith ZArith.\nFrom J5V.lib Require Import Outcome.\nFrom J5V.model Require Import RulesDecl RulesRead RulesNested RulesNestedSem RulesOneof RulesCorr.",
 		Type:   "c12case",
 		Check:  "c12_check",
 	}
@@ -410,6 +410,8 @@ func runC12(cfg *vh.Config) error {
 		res.Cases = append(res.Cases, vh.CaseRec{Case: caseNo, Stream: "regex", Input: map[string]any{"pattern": pat}, Impl: map[string]any{"compiles": cerr == nil, "matches": shown}})
 		caseNo++
 	}
+	runNestedC12(cfg.R.Fork("C12-nested"), cfg, val, res, cf, &caseNo, &evals)
+	runOneofC12(cfg.R.Fork("C12-oneof"), cfg, val, res, cf, &caseNo, &evals)
 	res.Evaluations = evals
 	res.Distinct = len(distinct)
 	per := 400
